@@ -10,6 +10,7 @@ mod c09;
 mod c11;
 mod c13;
 mod c18;
+mod c19;
 mod dump;
 mod fsops;
 mod fsutil;
@@ -17,6 +18,10 @@ mod util;
 
 fn main() {
     let args: Vec<String> = std::env::args().collect();
+    if args.get(1).map(String::as_str) == Some("c19_child") {
+        c19::child();
+        return;
+    }
     if args.get(1).map(String::as_str) == Some("execd_child") {
         c07::execd_child();
         return;
@@ -33,6 +38,7 @@ fn main() {
         "c07" => cases.iter().map(c07::run).collect(),
         "c08" => cases.iter().map(c08::run).collect(),
         "c09" => cases.iter().map(c09::run).collect(),
+        "c19" => cases.iter().map(c19::run).collect(),
         "fsops" => cases.iter().map(fsops::run).collect(),
         "c11" => cases.iter().map(c11::run).collect(),
         "c13" => cases.iter().map(c13::run).collect(),
